@@ -130,7 +130,7 @@ theorem stepResize_objinv {s s' : State} {i n old : Nat} {isClose : Bool} {pc : 
     (h : s.ops[i]? = some (.resize n isClose pc old)) (v : ObjInv s)
     (hs : stepResize s i n isClose pc old = some s') : ObjInv s' := by
   cases pc
-  all_goals simp only [stepResize, finishResize, returnResize] at hs
+  all_goals simp only [stepResize, finishResize] at hs
   all_goals repeat' split at hs
   all_goals first | (simp at hs; done) | skip
   all_goals (simp only [Option.some.injEq] at hs; subst hs)
@@ -145,6 +145,8 @@ theorem stepResize_objinv {s s' : State} {i n old : Nat} {isClose : Bool} {pc : 
     | (refine forall_mem_set (P := Op.objOK s.now) (i := i) v.ops ?_; trivial)
     | (intro o ho; exact v.idle o (hsub.subset ho))
     | exact v.sorted.sublist hsub
+    | (intro o ho; exact absurd ho List.not_mem_nil)
+    | exact List.Pairwise.nil
     | (intro e he
        simp only [State.setOp, State.emit, List.mem_append, List.mem_cons, List.not_mem_nil, or_false] at he
        rcases he with he | he
@@ -154,6 +156,12 @@ theorem stepResize_objinv {s s' : State} {i n old : Nat} {isClose : Bool} {pc : 
        simp only [State.setOp, State.emit, List.mem_append, List.mem_cons, List.not_mem_nil, or_false] at he
        rcases he with he | rfl
        · exact v.log e he
+       · trivial)
+    | (intro e he
+       simp only [State.setOp, State.emit, List.mem_append, List.mem_cons, List.not_mem_nil, or_false] at he
+       rcases he with he | he | rfl
+       · exact v.log e he
+       · exact drainEvs_metrics i _ e he
        · trivial)
 
 theorem stepRetain_objinv {s s' : State} {i : Nat} {keep : List Bool}
